@@ -51,6 +51,7 @@ type LCase struct {
 	Plug      bool          `json:"plug,omitempty"`
 	Reach     []engine.Step `json:"reach,omitempty"` // fs ops run after the plug: pending in the kernel
 	Overflow  int           `json:"overflow,omitempty"`
+	Churn     int           `json:"churn,omitempty"` // C07: filesystem churn operations per churn goroutine
 	Consumer  string        `json:"consumer"` // both, events, errors, none, stop
 	StopAfter int           `json:"stop_after,omitempty"`
 	Calls     []Call        `json:"calls,omitempty"`
@@ -88,6 +89,9 @@ func (c *LCase) String() string {
 			b.WriteString(" " + s.String())
 		}
 	}
+	if c.Churn > 0 {
+		fmt.Fprintf(&b, " ; churn(%d)", c.Churn)
+	}
 	if c.Overflow > 0 {
 		fmt.Fprintf(&b, " ; overflow(%d)", c.Overflow)
 	}
@@ -113,6 +117,12 @@ func loadLCase(t *testing.T) *LCase {
 	p := os.Getenv("VERIF_REPLAY")
 	if p == "" {
 		t.Skip("no VERIF_REPLAY")
+	}
+	var probe map[string]any
+	if err := engine.LoadJSON(p, &probe); err == nil {
+		if _, e1 := probe["steps"]; e1 {
+			t.Skip("replay file of the shadow-inotify engine (harness/props)")
+		}
 	}
 	var c LCase
 	if err := engine.LoadJSON(p, &c); err != nil {
